@@ -24,6 +24,8 @@ func main() {
 		cmdCheck(os.Args[2:])
 	case "replay":
 		cmdReplay(os.Args[2:])
+	case "selftest":
+		cmdSelftest(os.Args[2:])
 	case "gencopy":
 		b, err := generateCopyHarnesses()
 		if err != nil {
